@@ -113,6 +113,209 @@ def seq_continuation(ctx, prog, rid):
 
 
 
+WRITERS = ['HnswBackend::insert', 'HnswBackend::delete', 'HnswBackend::update_metadata', 'HnswBackend::batch_delete']
+
+
+def _is_seq_counter(e):
+    return any(f.endswith('PersistenceState.next_wal_seq') for f in flow.fields_in(e))
+
+
+def _minus_const(e):
+    """(base, c) when the origin tree `e` is `base − c` for an integer constant c (saturating / wrapping / checked-with-default / plain subtraction), (e, 0) otherwise."""
+    t = e[0]
+    if t == 'cast':
+        return _minus_const(e[1])
+    if t == 'field' and e[2] == '.0' and e[1][0] == 'bin' and e[1][1].endswith('WithOverflow'):
+        return _minus_const(e[1])
+    if t == 'bin' and e[1] in ('Sub', 'SubWithOverflow', 'SubUnchecked') and e[3][0] == 'const' and e[3][2] is not None:
+        b, c = _minus_const(e[2])
+        return b, c + e[3][2]
+    if t == 'bin' and e[1] in ('Add', 'AddWithOverflow', 'AddUnchecked') and e[3][0] == 'const' and e[3][2] is not None:
+        b, c = _minus_const(e[2])
+        return b, c - e[3][2]
+    if t == 'call' and re.search(r'num::(saturating|wrapping|unchecked)_sub$', flow.short(e[1])) and len(e[2]) == 2 and e[2][1][0] == 'const' and e[2][1][2] is not None:
+        b, c = _minus_const(e[2][0])
+        return b, c + e[2][1][2]
+    if t == 'call' and re.search(r'num::(saturating|wrapping|unchecked)_add$', flow.short(e[1])) and len(e[2]) == 2 and e[2][1][0] == 'const' and e[2][1][2] is not None:
+        b, c = _minus_const(e[2][0])
+        return b, c - e[2][1][2]
+    if t == 'call' and flow.short(e[1]).endswith('Option::unwrap_or') and len(e[2]) == 2 and e[2][1][0] == 'const' and e[2][0][0] == 'call' \
+            and re.search(r'num::checked_sub$', flow.short(e[2][0][1])) and e[2][0][2][1][0] == 'const' and e[2][0][2][1][2] is not None:
+        b, c = _minus_const(e[2][0][2][0])
+        return b, c + e[2][0][2][1][2]
+    return e, 0
+
+
+def seq_accounting(ctx, prog, rid):
+    """Sequence numbers are handed out once each, and the snapshot claims no more than was handed out (C02.R9; shared with C01.R12).
+
+    Replay decides per entry with `entry.seq_no ≤ snapshot.last_wal_seq ⇒ skip` and log compaction unlinks a segment whose entries all satisfy it, so two facts about the
+    WRITE side are necessary for a lossless restart:
+      (a) a number is used for one entry only: `next_wal_seq.fetch_add(n)` reserves [r, r+n); the entries numbered from that call get r (n = 1) or r + i with i the
+          position in the very vector whose length was reserved (n = len);
+      (b) fetch_add returns the value BEFORE the addition and that value numbers the entry, so the counter is the next number to hand out: what create_snapshot
+          records as covered (Snapshot.last_wal_seq, MANIFEST.latest_snapshot_wal_seq, the compaction boundary) is `next_wal_seq.load() − c` with c ≥ 1.
+    Returns the number of fetch_add sites examined."""
+    n_sites = 0
+    offsets = set()
+    for name in WRITERS:
+        f = ctx.body(rid, name)
+        if f is None:
+            continue
+        for b in prog.family(f):
+            o = flow.Origin(b)
+            fas = [c for c in b.calls if c.callee and re.search(r'Atomic.*::fetch_add$', c.callee) and c.args and _is_seq_counter(o.of_operand(c.args[0]))]
+            # every place where a log entry gets its number: the seq_no operand of a WalEntry{..} aggregate, or an assignment to <entry>.seq_no
+            numberings = []
+            for i, blk in enumerate(b.blocks):
+                if i not in b.live_blocks():
+                    continue
+                for st in blk['s']:
+                    rv = st.get('rv')
+                    if rv and rv['k'] == 'agg' and rv.get('adt', '').endswith('persistence::WalEntry') and 'seq_no' in (rv.get('fields') or []):
+                        numberings.append(('agg', i, o.of_operand(rv['ops'][rv['fields'].index('seq_no')]), None, st.get('loc', b.loc_of(i))))
+                    elif rv and st['pl'].get('p'):
+                        fs = [x for x in st['pl']['p'] if isinstance(x, str) and x != '*']
+                        if fs and fs[-1].endswith('persistence::WalEntry.seq_no'):
+                            numberings.append(('assign', i, o.of_rvalue(rv, 0, frozenset()), o.of_local(st['pl']['l']), st.get('loc', b.loc_of(i))))
+            if not fas and not numberings:
+                continue
+            const_nums = [n_ for n_ in numberings if n_[2][0] == 'const']
+            has_batch = False
+            for k, c in enumerate(fas):
+                n_sites += 1
+                amount = o.of_operand(c.args[1])
+                while amount[0] == 'cast':
+                    amount = amount[1]
+                mine = [n_ for n_ in numberings if any(x[0] == 'call' and len(x) > 3 and x[3] is c for x in flow.walk(n_[2]))]
+                me = ([flow.render(x) for n_ in mine for x in flow.walk(n_[2]) if x[0] == 'call' and len(x) > 3 and x[3] is c] or ['?'])[0]
+                descr = 'numbers handed out by next_wal_seq.fetch_add #%d are used once each' % k
+                if not mine:
+                    ctx.inst(rid, b.short, descr, False, 'the value returned by fetch_add at %s numbers no log entry (anchor: WalEntry.seq_no derived from it)' % c.loc)
+                    continue
+                if amount[0] == 'const' and amount[2] == 1:
+                    bad = []
+                    for kind, bb, t, pl, loc in mine:
+                        terms, cst = flow._linear(t)
+                        if terms != [(1, me)] or cst != 0:
+                            bad.append('the entry at %s is numbered %s, not the reserved number itself' % (loc, flow.render(t)[:160].replace(me, 'fetch_add(..)')))
+                        elif bb in b.reach(b.succ(bb), avoid_blocks=[c.bb]) or not b.dominates(c.bb, bb):
+                            bad.append('the entry at %s can be built more than once per reservation (it is in a loop that does not contain the fetch_add)' % loc)
+                        else:
+                            offsets.add(0)
+                    if len(mine) != 1:
+                        bad.append('%d entries are numbered from one reservation of 1' % len(mine))
+                    ctx.inst(rid, b.short, descr, not bad,
+                             ('fetch_add(1) at %s reserves ONE number, but %s — two entries of the log share a sequence number: a snapshot between them skips / compacts the '
+                              'later one as covered' % (c.loc, '; '.join(bad))) if bad else 'fetch_add(1) at %s; the reserved number goes into exactly one entry (%s)' % (c.loc, mine[0][4]))
+                elif amount[0] == 'call' and re.search(r'(Vec|slice)::len$', flow.short(amount[1])) and len(amount[2]) == 1:
+                    has_batch = True
+                    vec = amount[2][0]   # origin tree of the vector whose length is reserved (call nodes carry their call site: equality is identity of the definition)
+                    bad = []
+                    if len(mine) != 1 or mine[0][0] != 'assign':
+                        bad.append('expected exactly one `entry.seq_no = base + index` assignment, found %d numbering site(s)' % len(mine))
+                    else:
+                        kind, bb, t, pl, loc = mine[0]
+                        terms, cst = flow._linear(t)
+                        rest = [x for x in terms if x != (1, me)]
+                        enum = [x for x in flow.walk(t) if x[0] == 'call' and x[1].endswith('Iterator::enumerate')]
+                        if cst != 0 or len(rest) != 1 or len(terms) != 2 or rest[0][0] != 1:
+                            bad.append('the entry is numbered %s, not base + position' % flow.render(t)[:200].replace(me, 'fetch_add(..)'))
+                        elif len(enum) != 1 or not re.search(r'\.0\.0$', rest[0][1]) or 'enumerate' not in rest[0][1]:
+                            bad.append('the offset %s is not the enumerate() position of the numbering loop' % rest[0][1][:160])
+                        else:
+                            over = [x for x in flow.walk(enum[0][2][0]) if x == vec]
+                            same_item = pl is not None and any(x[0] == 'call' and len(x) > 3 and x[3] is enum[0][3] for x in flow.walk(pl))
+                            if not over:
+                                bad.append('the numbering loop runs over %s, the reservation counted %s' % (flow.render(enum[0][2][0])[:120], flow.render(vec)[:120]))
+                            if not same_item:
+                                bad.append('the numbered entry is not the item of the enumerate() loop')
+                            if not bad:
+                                offsets.add(0)
+                    ctx.inst(rid, b.short, descr, not bad,
+                             ('fetch_add(len) at %s: %s' % (c.loc, '; '.join(bad))) if bad else
+                             'fetch_add(len(v)) at %s; entry i of the same v gets base + i (%s)' % (c.loc, mine[0][4]))
+                else:
+                    ctx.inst(rid, b.short, descr, False, 'fetch_add at %s reserves %s: neither 1 nor the length of the vector of entries that is numbered from it' % (c.loc, flow.render(amount)[:160]))
+            # an entry built with a constant number is a placeholder that the batch numbering loop overwrites; anywhere else it is an unnumbered (seq 0 = "legacy") entry
+            if const_nums and not has_batch:
+                ctx.inst(rid, b.short, 'no log entry keeps a constant sequence number', False,
+                         'WalEntry built with seq_no = %s at %s and no numbering loop in this function' % (flow.render(const_nums[0][2]), const_nums[0][4]))
+            foreign = [n_ for n_ in numberings if n_[2][0] != 'const' and not any(x[0] == 'call' and len(x) > 3 and x[3] in fas for x in flow.walk(n_[2]))]
+            if foreign:
+                ctx.inst(rid, b.short, 'every log entry is numbered from next_wal_seq.fetch_add', False,
+                         'the entry at %s is numbered %s' % (foreign[0][4], flow.render(foreign[0][2])[:200]))
+    # (b) what the snapshot claims to cover
+    cs = None
+    try:
+        cs = util.pick(ctx, rid, 'HnswBackend::create_snapshot', 'Snapshot::save', 'Manifest::save')
+    except rt.AnchorMissing:
+        pass
+    sn = ctx.body(rid, 'Snapshot::new')
+    if cs is not None and sn is not None:
+        o = flow.Origin(cs)
+        son = flow.Origin(sn)
+        # which parameter of Snapshot::new becomes Snapshot.last_wal_seq
+        par = None
+        for i, blk in enumerate(sn.blocks):
+            for st in blk['s']:
+                rv = st.get('rv')
+                if rv and rv['k'] == 'agg' and rv.get('adt', '').endswith('persistence::Snapshot') and 'last_wal_seq' in (rv.get('fields') or []):
+                    e = son.of_operand(rv['ops'][rv['fields'].index('last_wal_seq')])
+                    if e[0] == 'arg':
+                        par = e[1] - 1
+        claims = []
+        for c in cs.calls_to('Snapshot::new'):
+            if par is not None and par < len(c.args):
+                claims.append(('Snapshot.last_wal_seq', o.of_operand(c.args[par]), c.loc))
+        for i, blk in enumerate(cs.blocks):
+            if i not in cs.live_blocks():
+                continue
+            for st in blk['s']:
+                if 'rv' in st and st['pl'].get('p'):
+                    fs = [x for x in st['pl']['p'] if isinstance(x, str) and x != '*']
+                    if fs and fs[-1].endswith('Manifest.latest_snapshot_wal_seq'):
+                        e = o.of_rvalue(st['rv'], 0, frozenset())
+                        if e[0] == 'agg' and e[1].endswith('Option::Some') and len(e[2]) == 1:
+                            e = e[2][0]
+                        claims.append(('MANIFEST.latest_snapshot_wal_seq', e, st.get('loc', cs.loc_of(i))))
+        # the parameter of the compaction that entry.seq_no is compared with
+        cp = ctx.body(rid, 'HnswBackend::compact_old_wal_segments')
+        cpo = flow.Origin(cp)
+        bpar = set()
+        for blk in cp.blocks:
+            for st in blk['s']:
+                rv = st.get('rv')
+                if rv and rv['k'] == 'bin' and rv['op'] in ('Le', 'Lt', 'Ge', 'Gt', 'Eq', 'Ne'):
+                    x, y = cpo.of_operand(rv['a']), cpo.of_operand(rv['b'])
+                    for p_, q_ in ((x, y), (y, x)):
+                        if any(f_.endswith('WalEntry.seq_no') for f_ in flow.fields_in(p_)) and q_[0] == 'arg':
+                            bpar.add(q_[1] - 1)
+        for c in cs.calls_to('HnswBackend::compact_old_wal_segments'):
+            for k_ in sorted(bpar):
+                if k_ < len(c.args):
+                    claims.append(('compaction boundary', o.of_operand(c.args[k_]), c.loc))
+        if par is None or any(not any(w.startswith(k_) for w, _, _ in claims) for k_ in ('Snapshot.', 'MANIFEST', 'compaction')):
+            ctx.missing(rid, 'create_snapshot: the sequence number passed to Snapshot::new, assigned to manifest.latest_snapshot_wal_seq and passed to the log compaction (found: %s)'
+                        % sorted(set(w for w, _, _ in claims)))
+        elif offsets != {0}:
+            ctx.missing(rid, 'the writers number their entries with the value fetch_add returns (needed to read the counter as "next number to hand out")')
+        else:
+            bad = []
+            for what, e, loc in claims:
+                base, cst = _minus_const(e)
+                is_load = base[0] == 'call' and re.search(r'Atomic.*::load$', base[1]) and _is_seq_counter(base)
+                if not is_load:
+                    bad.append('%s = %s is not derived from next_wal_seq.load()' % (what, flow.render(e)[:140]))
+                elif cst < 1:
+                    bad.append('%s = next_wal_seq.load() − %d at %s' % (what, cst, loc))
+            ctx.inst(rid, cs.short, 'the snapshot claims to cover next_wal_seq − c, c ≥ 1 (the counter is the NEXT number to hand out)', not bad,
+                     ('; '.join(bad[:3]) + ' — the counter value itself has not been handed out yet: the next acknowledged write gets exactly that number and the following '
+                      'restart skips it as covered by the snapshot (and compaction may unlink its segment)') if bad else
+                     '%d uses (%s) all of the form next_wal_seq.load() − c with c ≥ 1' % (len(claims), ', '.join(sorted(set(w for w, _, _ in claims)))))
+    return n_sites
+
+
 def run(ctx, prog):
     ctx.not_decided = ['equality of recovered and live state over histories × configurations',
                        'bit-exact idempotence of normalisation (floating point)']
@@ -463,4 +666,12 @@ def run(ctx, prog):
     eff8 = _Eff8(prog)
     eff8.define('wal_append', 'WalWriter::append', 'WalWriter::append_batch')
     _C03.rejection_classes(ctx, prog, 'C02.R8', eff8)
+    # ------------------------------------------------------------------ R9 sequence numbers are used once, and the snapshot claims only what was handed out
+    ctx.rule('C02.R9', 'sequence accounting on the write side (replay skips and compaction unlinks by `entry.seq_no ≤ snapshot.last_wal_seq`): every '
+                       'next_wal_seq.fetch_add(n) numbers exactly n entries — n = 1 and the returned value itself, or n = len(v) and entry i of that same v gets '
+                       'returned + i — so no two entries of the log share a number; and because the returned (pre-increment) value numbers the entry, the counter is the '
+                       'next number to hand out: Snapshot.last_wal_seq, MANIFEST.latest_snapshot_wal_seq and the compaction boundary in create_snapshot are '
+                       'next_wal_seq.load() − c with c ≥ 1')
+    n9 = seq_accounting(ctx, prog, 'C02.R9')
+    ctx.floor('C02.R9', 'next_wal_seq.fetch_add sites', n9, 5, 'insert ×2, delete, update_metadata, batch_delete')
     ctx.stat('functions_analysed', len(set(i['key'].split(' | ')[1] for i in ctx.instances)))
